@@ -863,12 +863,7 @@ Proof.
     rewrite get_id_add_key by assumption. destruct (String.eqb_spec k k0); [congruence|reflexivity].
 Qed.
 
-(* [owned g cn k]: key k currently resolves to a ClusterInfo of cluster cn *)
-Definition owned (g : gw) (cn k : string) : bool :=
-  match get g k with
-  | Some c => String.eqb (i_cluster c) cn
-  | None => false
-  end.
+(* [owned g cn k] (C10_Model): key k currently resolves to a ClusterInfo of cluster cn *)
 
 Lemma get_del_key g k0 k :
   lowered k0 -> lowered k -> get (del_key g k0) k = if String.eqb k k0 then None else get g k.
@@ -1890,4 +1885,223 @@ Lemma request_ignores_sni ops :
 Proof.
   intros Hleg w. split; [intros; split; reflexivity|].
   intros o host sni Ho. destruct (resolves_iff ops Hleg) as [H _]. exact (H o host Ho).
+Qed.
+
+(* ================================================================== Part E: between two manager mutations *)
+(* Every state a concurrent request can observe while one event is being applied shows, for every key,
+   either what the key resolved to before the event or what it resolves to after it. *)
+
+Definition rc (g : gw) (k : string) : option string :=
+  match get_id g k with Some id => cl_of g id | None => None end.
+
+Lemma resolve_cluster_rc g host : resolve_cluster g host = rc g (host_without_port host).
+Proof.
+  unfold resolve_cluster, resolve, get, rc, cl_of. now destruct (get_id g (host_without_port host)).
+Qed.
+
+Lemma trace_fold_prefix {A} (step : gw -> A -> gw) hit l g gm :
+  In gm (trace_fold step hit l g) -> exists l1 l2, l = (l1 ++ l2)%list /\ gm = fold_left step l1 g.
+Proof.
+  revert g; induction l as [|x r IH]; intros g H; simpl in H; [contradiction|].
+  apply in_app_or in H as [H|H].
+  - destruct (hit g x); [|contradiction]. destruct H as [<-|[]]. exists [x], r. split; reflexivity.
+  - destruct (IH _ H) as (l1 & l2 & -> & ->). exists (x :: l1), l2. split; reflexivity.
+Qed.
+
+Lemma smem_app_l k l1 l2 : smem k l1 = true -> smem k (l1 ++ l2) = true.
+Proof. rewrite !smem_In. intros H. apply in_or_app. now left. Qed.
+
+Lemma add_or_update_None_trace g old id : add_or_update g old id = None -> add_or_update_trace g old id = [].
+Proof.
+  unfold add_or_update, add_or_update_trace. destruct (nth_error (g_infos g) id) as [i|]; [|reflexivity].
+  destruct (list_eqb String.eqb old (load_names i)); [discriminate|].
+  destruct (check_conflict g (i_cluster i) old (load_names i)); [reflexivity|discriminate].
+Qed.
+
+Lemma aou_between g old id i g2 gm :
+  nth_error (g_infos g) id = Some i ->
+  (forall k, In k old -> lowered k) -> (forall k, In k (load_names i) -> lowered k) ->
+  add_or_update g old id = Some g2 -> In gm (add_or_update_trace g old id) ->
+  g_infos gm = g_infos g /\ g_infos g2 = g_infos g /\
+  forall k, lowered k -> get_id gm k = get_id g k \/ get_id gm k = get_id g2 k.
+Proof.
+  intros Hn Hlo Hln. unfold add_or_update, add_or_update_trace. rewrite Hn.
+  destruct (list_eqb String.eqb old (load_names i)); [intros _ []|].
+  destruct (check_conflict g (i_cluster i) old (load_names i)); [intros _ []|].
+  set (cn := i_cluster i). set (new := load_names i) in *.
+  intros E Hin.
+  assert (Eg2 : g2 = fold_left (add_new id old) new (fold_left (del_old cn new) old g)).
+  { injection E. intros <-. reflexivity. }
+  clear E. subst g2.
+  assert (Hg2 : forall k, lowered k ->
+            get_id (fold_left (add_new id old) new (fold_left (del_old cn new) old g)) k
+            = if (smem k new && negb (smem k old))%bool then Some id
+              else if (smem k old && negb (smem k new) && owned g cn k)%bool then None else get_id g k).
+  { intros k Hk. now rewrite get_id_fold_add, get_id_fold_del by auto. }
+  apply in_app_or in Hin as [Hin|Hin]; apply trace_fold_prefix in Hin as (l1 & l2 & El & ->).
+  - assert (Hl1 : forall k, In k l1 -> lowered k).
+    { intros k Hk. apply Hlo. rewrite El. apply in_or_app. now left. }
+    split; [apply fold_del_infos|]. split; [now rewrite fold_add_infos, fold_del_infos|].
+    intros k Hk. rewrite Hg2 by exact Hk. rewrite get_id_fold_del by auto.
+    destruct (smem k l1) eqn:E1; cbn [andb]; [|now left].
+    assert (Eo : smem k old = true) by (rewrite El; now apply smem_app_l).
+    rewrite Eo. destruct (smem k new); cbn [andb negb]; [now left|].
+    destruct (owned g cn k); [now right|now left].
+  - assert (Hl1 : forall k, In k l1 -> lowered k).
+    { intros k Hk. apply Hln. fold new. rewrite El. apply in_or_app. now left. }
+    split; [now rewrite fold_add_infos, fold_del_infos|]. split; [now rewrite fold_add_infos, fold_del_infos|].
+    intros k Hk. rewrite Hg2 by exact Hk. rewrite get_id_fold_add, get_id_fold_del by auto.
+    destruct (smem k l1) eqn:E1; cbn [andb].
+    + assert (En : smem k new = true) by (rewrite El; now apply smem_app_l).
+      rewrite En. destruct (smem k old); cbn [andb negb]; [|now right].
+      now left.
+    + destruct (smem k new) eqn:En; destruct (smem k old) eqn:Eo; cbn [andb negb]; try (now right); now left.
+Qed.
+
+Lemma stop_between cn l g gm :
+  (forall k, In k l -> lowered k) -> In gm (trace_fold (del_stop_own cn) (hit_stop cn) l g) ->
+  (forall id, cl_of gm id = cl_of g id) /\
+  (forall id, cl_of (fold_left (del_stop_own cn) l g) id = cl_of g id) /\
+  forall k, lowered k -> get_id gm k = get_id g k \/ get_id gm k = get_id (fold_left (del_stop_own cn) l g) k.
+Proof.
+  intros Hl Hin. apply trace_fold_prefix in Hin as (l1 & l2 & El & ->).
+  assert (Hl1 : forall k, In k l1 -> lowered k).
+  { intros k Hk. apply Hl. rewrite El. apply in_or_app. now left. }
+  destruct (fold_stop_spec cn l1 g Hl1) as [C1 G1]. destruct (fold_stop_spec cn l g Hl) as [C G].
+  split; [exact C1|]. split; [exact C|].
+  intros k Hk. rewrite G1, G by exact Hk.
+  destruct (smem k l1) eqn:E1; cbn [andb]; [|now left].
+  assert (E : smem k l = true) by (rewrite El; now apply smem_app_l). rewrite E. cbn [andb].
+  destruct (owned g cn k); [now right|now left].
+Qed.
+
+Lemma rc_of_infos g1 g2 k : get_id g1 k = get_id g2 k -> (forall id, cl_of g1 id = cl_of g2 id) -> rc g1 k = rc g2 k.
+Proof. intros E C. unfold rc. rewrite E. destruct (get_id g2 k); [apply C|reflexivity]. Qed.
+
+Lemma cl_of_infos_eq g1 g2 : g_infos g1 = g_infos g2 -> forall id, cl_of g1 id = cl_of g2 id.
+Proof. intros E id. unfold cl_of. now rewrite E. Qed.
+
+Lemma delete_between g cn gm :
+  (forall i0, get g cn = Some i0 -> lowered (i_cluster i0)) ->
+  In gm (delete_trace g cn) ->
+  forall k, lowered k -> rc gm k = rc g k \/ rc gm k = rc (delete_for_server_names g cn) k.
+Proof.
+  unfold delete_trace, delete_for_server_names. intros Hlow Hin k Hk.
+  destruct (get g cn) as [i0|]; [|contradiction].
+  assert (Hl : forall k0, In k0 (load_names i0) -> lowered k0).
+  { intros k0. apply load_names_lowered. now apply Hlow. }
+  destruct (stop_between cn _ g gm Hl Hin) as (C1 & C & G).
+  destruct (G k Hk) as [E|E]; [left|right]; apply rc_of_infos; auto.
+  intros id. now rewrite C1, C.
+Qed.
+
+Lemma cl_of_upd_same g id i i' id' :
+  nth_error (g_infos g) id = Some i -> i_cluster i' = i_cluster i -> cl_of (upd_info g id i') id' = cl_of g id'.
+Proof.
+  intros Hn Hc. unfold cl_of, upd_info; cbn [g_infos].
+  destruct (Nat.eq_dec id id') as [<-|Hne].
+  - rewrite (nth_error_set_nth_eq _ _ _ _ Hn), Hn. simpl. now rewrite Hc.
+  - now rewrite nth_error_set_nth_neq.
+Qed.
+
+Lemma get_None_delete_trace g cn : get g cn = None -> delete_trace g cn = [].
+Proof. unfold delete_trace. now intros ->. Qed.
+
+Lemma sync_between g o gm :
+  no_dangling g -> In gm (sync_trace g o) ->
+  forall k, lowered k -> rc gm k = rc g k \/ rc gm k = rc (fst (sync_obj g o)) k.
+Proof.
+  intros Hnd Hin k Hk. unfold sync_trace in Hin. unfold sync_obj.
+  destruct (conflict_upstream g o) eqn:Ec; [contradiction|].
+  assert (Hlc : lowered (lowname o)) by apply lowname_lowered.
+  destruct (get_id g (lowname o)) as [id|] eqn:Eid.
+  - destruct (Hnd _ _ Eid) as (i & Hn).
+    assert (Eg : get g (lowname o) = Some i) by (unfold get; now rewrite Eid).
+    rewrite Eg in Hin |- *.
+    pose proof (conflict_upstream_cluster _ _ _ Ec Eg) as Hc.
+    pose proof (info_sync_cluster i o) as Hc'.
+    destruct (info_sync i o) as [ok i'] eqn:Es. simpl in Hc'.
+    destruct ok; cbn [negb] in Hin |- *; [|contradiction].
+    set (g1 := upd_info g id i') in *.
+    assert (Hn1 : nth_error (g_infos g1) id = Some i') by (eapply nth_error_set_nth_eq; eauto).
+    assert (C1 : forall id', cl_of g1 id' = cl_of g id') by (intros; eapply cl_of_upd_same; eauto).
+    destruct (add_or_update g1 (load_names i) id) as [g2|] eqn:Ea; cbn [fst].
+    + assert (Hlo : forall k0, In k0 (load_names i) -> lowered k0).
+      { intros k0. apply load_names_lowered. now rewrite Hc. }
+      assert (Hln : forall k0, In k0 (load_names i') -> lowered k0).
+      { intros k0. apply load_names_lowered. now rewrite Hc', Hc. }
+      destruct (aou_between g1 _ id i' g2 gm Hn1 Hlo Hln Ea Hin) as (I1 & I2 & G).
+      destruct (G k Hk) as [E|E]; [left|right].
+      * rewrite <- (rc_of_infos g1 g k eq_refl C1). apply rc_of_infos; [exact E|now apply cl_of_infos_eq].
+      * apply rc_of_infos; [exact E|]. apply cl_of_infos_eq. now rewrite I1, I2.
+    + rewrite (add_or_update_None_trace _ _ _ Ea) in Hin. contradiction.
+  - assert (Eg : get g (lowname o) = None) by (unfold get; now rewrite Eid).
+    destruct (create_info o) as [i'|] eqn:Ecr.
+    + pose proof (create_info_cluster _ _ Ecr) as Hc.
+      set (g1 := {| g_infos := (g_infos g ++ [i'])%list; g_mgr := g_mgr g |}) in *.
+      set (id := List.length (g_infos g)) in *.
+      assert (Hn1 : nth_error (g_infos g1) id = Some i').
+      { unfold g1, id; simpl. rewrite nth_error_app2 by lia. now rewrite Nat.sub_diag. }
+      destruct (add_or_update g1 [] id) as [g2|] eqn:Ea; cbn [fst].
+      * assert (Hln : forall k0, In k0 (load_names i') -> lowered k0).
+        { intros k0. apply load_names_lowered. now rewrite Hc. }
+        destruct (aou_between g1 [] id i' g2 gm Hn1 (fun _ F => match F with end) Hln Ea Hin) as (I1 & I2 & G).
+        destruct (G k Hk) as [E|E]; [left|right].
+        -- unfold rc. rewrite E. change (get_id g1 k) with (get_id g k).
+           destruct (get_id g k) as [x|] eqn:Ex; [|reflexivity].
+           destruct (Hnd _ _ Ex) as (ix & Hx). unfold cl_of. rewrite I1. unfold g1; simpl.
+           rewrite nth_error_app1; [reflexivity|]. apply nth_error_Some. congruence.
+        -- apply rc_of_infos; [exact E|]. apply cl_of_infos_eq. now rewrite I1, I2.
+      * exfalso. rewrite get_None_delete_trace in Hin; [contradiction|].
+        unfold get. change (get_id (upd_info g1 id (stop_info i')) (lowname o)) with (get_id g (lowname o)).
+        now rewrite Eid.
+    + rewrite (get_None_delete_trace _ _ Eg) in Hin. contradiction.
+Qed.
+
+Lemma deliver_between api g n gm :
+  no_dangling g -> (forall i0, get g (to_lower n) = Some i0 -> lowered (i_cluster i0)) ->
+  In gm (deliver_trace api g n) ->
+  forall k, lowered k -> rc gm k = rc g k \/ rc gm k = rc (fst (deliver api g n)) k.
+Proof.
+  intros Hnd Hlow Hin k Hk. unfold deliver_trace in Hin. unfold deliver.
+  destruct (api_find n api) as [o|]; cbn [fst].
+  - now apply sync_between.
+  - now apply delete_between.
+Qed.
+
+(* C10_retained_names_never_drop *)
+Lemma retained_names_never_drop ops p :
+  Forall legal ops -> legal p ->
+  let w := run empty_world ops in
+  forall gm, In gm (step_trace w p) ->
+  forall host,
+    (resolve_cluster gm host = resolve_cluster (w_gw w) host
+     \/ resolve_cluster gm host = resolve_cluster (w_gw (fst (step w p))) host)
+    /\ (forall c, resolve_cluster (w_gw w) host = Some c ->
+                  resolve_cluster (w_gw (fst (step w p))) host = Some c ->
+                  resolve_cluster gm host = Some c).
+Proof.
+  intros Hleg Hp w gm Hin host.
+  pose proof (run_inv ops Hleg) as I. fold w in I.
+  assert (Hlow : forall n i0, get (w_gw w) (to_lower n) = Some i0 -> lowered (i_cluster i0)).
+  { intros n i0 Hg. destruct (inv_key_sound w _ i0 I (lowered_to_lower n) Hg) as (o & _ & -> & _).
+    apply lowname_lowered. }
+  assert (H : resolve_cluster gm host = resolve_cluster (w_gw w) host
+              \/ resolve_cluster gm host = resolve_cluster (w_gw (fst (step w p))) host).
+  { rewrite !resolve_cluster_rc.
+    destruct p as [force o|n|k]; simpl in Hin |- *.
+    - simpl in Hp. subst force. rewrite Bool.orb_false_r in Hin |- *.
+      destruct (admission_ok (w_api w) o); [|contradiction].
+      destruct (deliver (api_upsert o (w_api w)) (w_gw w) (o_name o)) as [g' r] eqn:Ed. cbn [fst w_gw].
+      change g' with (fst (g', r)). rewrite <- Ed.
+      apply deliver_between; [apply (inv_nd _ I)|apply Hlow|exact Hin|apply hwp_lowered].
+    - destruct (api_find n (w_api w)); [|contradiction].
+      destruct (deliver (api_remove n (w_api w)) (w_gw w) n) as [g' r] eqn:Ed. cbn [fst w_gw].
+      change g' with (fst (g', r)). rewrite <- Ed.
+      apply deliver_between; [apply (inv_nd _ I)|apply Hlow|exact Hin|apply hwp_lowered].
+    - destruct (nth_error (w_log w) k) as [[n|]|]; try contradiction.
+      destruct (deliver (w_api w) (w_gw w) n) as [g' r] eqn:Ed. cbn [fst w_gw].
+      change g' with (fst (g', r)). rewrite <- Ed.
+      apply deliver_between; [apply (inv_nd _ I)|apply Hlow|exact Hin|apply hwp_lowered]. }
+  split; [exact H|]. intros c H1 H2. destruct H as [->| ->]; assumption.
 Qed.
